@@ -123,14 +123,27 @@ pub fn run_c04(seed: u64, n: usize, out: &str) {
         let (ops, note) = if r.chance(0.1) { small_history(&mut r) } else { rand_history(&mut r, if big { 60 } else { 14 }) };
         let mut l = Loop3D::new();
         let mut coq_ops = vec![]; let mut coq_snaps = vec![]; let mut j_ops = vec![]; let mut j_snaps = vec![];
-        for op in ops.iter() {
-            let o = apply_op(&mut l, op);
-            let (k, p, lab) = match op { Op::Push(p, lab) => (0, *p, *lab), Op::Close => (1, Point3D::new(0.0, 0.0, 0.0), "close") };
+        let mut queue: std::collections::VecDeque<Op> = ops.iter().cloned().collect();
+        let mut own_done = false;
+        while let Some(op) = queue.pop_front() {
+            let o = apply_op(&mut l, &op);
+            let (k, p, lab) = match &op { Op::Push(p, lab) => (0, *p, *lab), Op::Close => (1, Point3D::new(0.0, 0.0, 0.0), "close") };
             coq_ops.push(format!("({}%N, {})", k, sfs(&[p.x, p.y, p.z])));
             j_ops.push(format!("{{\"k\":{},\"p\":{},\"lab\":\"{}\"}}", k, jfs(&[p.x, p.y, p.z]), lab));
             let s = snapshot(&l);
             coq_snaps.push(snap_coq(o, &s)); j_snaps.push(snap_json(o, &s));
             if o == 99 { break; }
+            // once the loop is closed: push its OWN stored vertices again (last-but-one, last, first, second, a random one) -
+            // every addition to a closed loop must be refused with the loop unchanged, whichever branch of push the point would take
+            if queue.is_empty() && !own_done && l.closed() && r.chance(0.5) {
+                own_done = true;
+                let vs = l.vertices().to_vec(); let m = vs.len();
+                if m >= 3 {
+                    let mut idx = vec![m - 2, m - 1, 0, 1, r.below(m as u64) as usize];
+                    while idx.len() > 1 + r.below(4) as usize { let j = r.below(idx.len() as u64) as usize; idx.remove(j); }
+                    for i in idx { queue.push_back(Op::Push(vs[i], "own-vertex-after-close")); }
+                }
+            }
         }
         sink.push(
             format!("([{}], [{}])", coq_ops.join("; "), coq_snaps.join("; ")),
